@@ -452,7 +452,17 @@ def r6_writers(ctx):
     """the callback is configuration of the table object: set at creation, cleared at silent destruction, silenced and restored around
     the reload diff - nothing else may write it (a swap or a copy that touched it would redirect or suppress notifications)"""
     pdb = ctx.pdb
-    writers = sorted({i.fn.name for i in vf.stores_to_field(pdb, "spki_table.update_fp")})
+    def executed(i):
+        # the copy of a shared helper inside a caller that switches this store off with a constant argument is never executed
+        hit = []
+
+        def cl(inst, E, st):
+            if inst is i:
+                hit.append(1)
+            return None
+        es.count_effects(i.fn, pdb, cl, None, cap=48)
+        return bool(hit)
+    writers = sorted({i.fn.name for i in vf.stores_to_field(pdb, "spki_table.update_fp") if executed(i)})
     ctx.check(set(writers) <= {"spki_table_init", "spki_table_free_without_notify", "spki_table_notify_diff"} and "spki_table_init" in writers,
               "C10.R6", "callback-writers", "rtrlib/spki/hashtable/ht-spkitable.c", "update_fp written in %s" % writers, key="C10.R6:callback-writers")
 
